@@ -215,7 +215,7 @@ def main():
     conv = []
     for k in range(6 if run.thorough else 2):
         for kind in ("bw", "bb"):
-            items = cf.text_items(kind, 3 if k % 2 == 0 else 2)
+            items = cf.text_items(kind, [3, 4, 2, 4, 3, 2][k % 6])      # 4: infinities, NaN, -0 among the values
             inp, sizes, _ = cf.write_inputs(d, kind, items, "cv%d%s" % (k, kind))
             big = os.path.join(d, "cv%d.%s" % (k, kind))
             rc, _, err = cf.run_tool(tdir, "own", "bedgraphtobigwig" if kind == "bw" else "bedtobigbed", [inp, sizes, big, "-t", "2"])
